@@ -62,6 +62,8 @@ def op? : Sexp → Option Op
   | .list [.atom "complete", t, o] => do some (.complete (← t.nat?) (← outc? o))
   | .list [.atom "threadEnd", th] => th.nat?.map .threadEnd
   | .list [.atom "outside", n] => n.nat?.map .outside
+  | .list [.atom "await", t] => t.nat?.map .await
+  | .list (.atom "aioCall" :: r) => (spell? r).map .aioCall
   | _ => none
 
 def res? : Sexp → Option Res
@@ -70,6 +72,9 @@ def res? : Sexp → Option Res
   | .list [.atom "unit"] => some .unit
   | .list [.atom "binding", p, r, e] => do
     some (.binding { params := (← p.natList?), rest := (← r.natList?), extra := (← pairs? e) })
+  | .list [.atom "got", .atom "none"] => some (.got none)
+  | .list [.atom "got", o] => (outc? o).map fun x => .got (some x)
+  | .list [.atom "coro"] => some .coro
   | .list (.atom "raised" :: _) => some .bad
   | _ => none
 
@@ -90,38 +95,75 @@ def isDeco : Sexp → Bool
   | .list (.atom "deco" :: _) => true
   | _ => false
 
+def isKg : Sexp → Bool
+  | .list (.atom "kg" :: _) => true
+  | _ => false
+
 /-- `(deco <number of deduplicate() objects> (<function index> <object index>) ...)`: the applications in program order -/
 def deco? : Sexp → Option (Nat × List (Nat × Nat))
   | .list (.atom "deco" :: n :: apps) => do some ((← n.nat?), (← apps.mapM pair?))
   | _ => none
 
-/-- the decoration phase of the case run on the model (`decorateAll`, all objects made by `deduplicate()`): does every
-    function end up with the keygetter of its own signature, which is what `step` uses? (always, `C12_keygetter_per_function`) -/
-def decoOk (fns : List FnDecl) (d : Nat × List (Nat × Nat)) : Bool :=
+/-- `(kg <function index> (args...) ((name value)...) (ok tok...))` / `(... (typeError))`: what the keygetter that the REAL
+    decorated function carries answered for probe arguments -/
+def kg? : Sexp → Option KgProbe
+  | .list [.atom "kg", f, a, k, .list (.atom "ok" :: xs)] => do
+    some { fn := (← f.nat?), args := (← a.natList?), kw := (← pairs? k), ans := some (← xs.mapM (·.nat?)) }
+  | .list [.atom "kg", f, a, k, .list [.atom "typeError"]] => do
+    some { fn := (← f.nat?), args := (← a.natList?), kw := (← pairs? k), ans := none }
+  | _ => none
+
+/-- the decoration phase of the case run on the model (`decorateAll`, all objects made by `deduplicate()`): the keygetter
+    the model's phase hands to each function, in the order of the applications; `none` = malformed header (a function
+    that is not decorated, decorated twice, or by an unknown object) -/
+def decoKeyFns (fns : List FnDecl) (d : Nat × List (Nat × Nat)) : Option (List (Nat × KeyFn)) :=
   let objs : List DecoObj := List.replicate d.1 { captured := none }
   match d.2.mapM (fun a => (fns[a.1]?).map fun f => (a.2, f.sig)) with
-  | none => false
+  | none => none
   | some apps =>
     let ks := (decorateAll objs apps).2
-    ks == apps.map (fun a => some (.ofSig a.2)) &&
-      (List.range fns.length).all fun i => d.2.any fun a => a.1 == i
+    if ks.all (·.isSome) && ((List.range fns.length).all fun i => (d.2.filter fun a => a.1 == i).length == 1) then
+      some ((d.2.map (·.1)).zip (ks.filterMap id))
+    else none
+
+/-- the first probe of the REAL keygetters that the model's decoration phase does not explain -/
+def kgMismatch (ks : List (Nat × KeyFn)) (probes : List KgProbe) : Option KgProbe :=
+  probes.find? fun p =>
+    match ks.find? (fun e => e.1 == p.fn) with
+    | none => true
+    | some e => !p.agrees e.2
 
 /-- `hdr` = the function declarations (and at most one `deco` item); `body` = the observation lines -/
 def handle (id : Nat) (hdr : List Sexp) (body : List Sexp) : String :=
   let decos := hdr.filter isDeco
-  let hdr := hdr.filter (fun x => !isDeco x)
-  match hdr.mapM fn?, body.mapM obs?, decos.mapM deco? with
-  | some fns, some impl, some ds =>
-    if !(ds.all (decoOk fns)) then s!"R {id} CORR=diff SPEC=ok SPECM=ok | decoration phase: a function is not decorated, or by an unknown object" else
+  let kgs := hdr.filter isKg
+  let hdr := hdr.filter (fun x => !isDeco x && !isKg x)
+  match hdr.mapM fn?, body.mapM obs?, decos.mapM deco?, kgs.mapM kg? with
+  | some fns, some impl, some ds, some probes =>
+    -- the decoration phase: the model's `decorateAll` on the applications of the case, compared with what the keygetter
+    -- of every REAL decorated function answers for the probe arguments
+    let dk : Option (List (Nat × KeyFn)) :=
+      match ds with
+      | [] => some ((List.range fns.length).zip (fns.map fun f => KeyFn.ofSig f.sig))
+      | [d] => decoKeyFns fns d
+      | _ => none
+    match dk with
+    | none => s!"R {id} CORR=diff SPEC=ok SPECM=ok | decoration phase: a function is not decorated exactly once, or by an unknown object"
+    | some ks =>
     let ops := impl.map (·.op)
     let model := run fns St.init ops
+    let kgd : Option String := (kgMismatch ks probes).map fun p =>
+      s!"decoration phase: the keygetter of function {p.fn} answers {repr p.ans} for args {repr p.args} kw {repr p.kw}; the model's decoration phase gives it the keygetter of its own signature"
     let corr := firstDiff model impl
     let spec := specClause fns impl
     let specm := specClause fns model
-    let c := match corr with | none => "ok" | some _ => "diff"
-    let d := match corr with | none => "" | some (i, s) => (s!"obs {i}: {s}".replace "\n" " ")
+    let c := match kgd, corr with | none, none => "ok" | _, _ => "diff"
+    let d := match kgd, corr with
+      | some m, _ => m.replace "\n" " "
+      | none, some (i, s) => (s!"obs {i}: {s}".replace "\n" " ")
+      | none, none => ""
     let f (s : String) := if s == "ok" then "ok" else "fail:" ++ s
     s!"R {id} CORR={c} SPEC={f spec} SPECM={f specm} | {d}"
-  | _, _, _ => s!"R {id} CORR=diff SPEC=ok SPECM=ok | unparsable case"
+  | _, _, _, _ => s!"R {id} CORR=diff SPEC=ok SPECM=ok | unparsable case"
 
 end AsynqModel.Drv.Dedup
